@@ -206,6 +206,14 @@ def check(case, obs):
             base = dict(amplification_type=[(0.0, 0.0)] * len(lst), resolution=[1024] * len(lst))
             base[key] = [val] * (len(lst) + 1)
             out = call(tr.to_rfi, data, lst, **base)
+            # too short is as inconsistent as too long: one entry fewer, and no entry at all (list or tuple)
+            for short in ([val] * (len(lst) - 1), [], ()):
+                if len(short) == len(lst):
+                    continue
+                b2 = dict(base)
+                b2[key] = short
+                o2 = call(tr.to_rfi, data, lst, **b2)
+                obs.claim('refuse', raised(o2), lambda: 'inconsistent request %s accepted: %d channels, %s=%r' % (e, len(lst), key, short))
         obs.claim('refuse', raised(out), lambda: 'inconsistent request %s accepted' % e)
         return
 
